@@ -246,7 +246,7 @@ struct SweepCfg {
 fn sweep_cfgs(tier: Tier) -> Vec<SweepCfg> {
     let mut v = vec![];
     let plain = [b'a', b'b', b'c'];
-    let (bin_len, tern_len) = tier.pick((4, 2), (5, 3));
+    let (bin_len, tern_len) = tier.pick((4, 2), (6, 3));
     for kind in 0..4u8 {
         for &go in &GAP_OPEN {
             for &ge in &GAP_EXTEND {
@@ -907,7 +907,7 @@ pub fn mutated_copy(x: &[u8], n: usize, seed: u64) -> Vec<u8> {
 }
 
 /// (|x|, |y|): around the aligners' default capacity (200) and around 256
-pub const LONG_SIZES: [(usize, usize); 8] = [(199, 201), (200, 200), (201, 199), (255, 257), (256, 256), (257, 255), (300, 3), (2, 300)];
+pub const LONG_SIZES: [(usize, usize); 10] = [(199, 201), (200, 200), (201, 199), (255, 257), (256, 256), (257, 255), (300, 3), (2, 300), (70_000, 7), (7, 70_000)];
 pub const LONG_CLIPS: [[i32; 4]; 5] = [[MIN_SCORE; 4], [0; 4], [MIN_SCORE, MIN_SCORE, 0, 0], [-4, MIN_SCORE, 0, -1], [0, -1, MIN_SCORE, -4]];
 
 fn long_case(si: usize, kind: u8, go: i32, ge: i32, ci: usize, mode: Mode, ctor: usize, cc: &mut CaseCtx) {
@@ -1014,14 +1014,14 @@ impl Prop for C01Prop {
     fn bounds(&self, tier: Tier) -> Value {
         json!({
             "sweep_configurations": sweep_cfgs(tier).len(),
-            "binary_len": tier.pick("<=4 (<=5 for eight schemes)", "<=5 (<=6 for eight schemes)"),
+            "binary_len": tier.pick("<=4 (<=5 for eight schemes)", "<=6 (<=7 for eight schemes)"),
             "ternary_len": tier.pick("<=2", "<=3"),
             "substitution": "(+1,-1) (+2,-3) (0,-1) asymmetric table",
             "gap_open": GAP_OPEN, "gap_extend": GAP_EXTEND,
             "clip_penalties": "{MIN_SCORE,0,-1,-4}^4 (all 256)",
             "byte_embeddings": ["a,b", "0x00,0xFF", "0x7F,0x80"],
             "constructors": "with_scoring, with_capacity_and_scoring(0,0), with_capacity_and_scoring(m,n); constructor units: Aligner::new, Aligner::with_capacity, Scoring::new / Scoring::from_scores followed by xclip/yclip/xclip_prefix/xclip_suffix/yclip_prefix/yclip_suffix in four orders, a struct literal whose match_scores hint does not describe match_fn, each on every scheme the route can express x every pair over {a,b}^<=3",
-            "long_sequences": "(|x|,|y|) in (199,201) (200,200) (201,199) (255,257) (256,256) (257,255) (300,3) (2,300): pseudo-random x over {a,b,c}, y a mutated copy; 2/3 substitution kinds x 2/4 gap pairs x 5 clip settings (custom) + the three standard modes; the long call follows a short one on the same object; O(mn) oracle validated against the sub-range oracle on every pair over {a,b}^<=3 x 256 clip settings",
+            "long_sequences": "(|x|,|y|) in (199,201) (200,200) (201,199) (255,257) (256,256) (257,255) (300,3) (2,300) (70000,7) (7,70000; clipped ends longer than 2^16): pseudo-random x over {a,b,c}, y a mutated copy; 2/3 substitution kinds x 2/4 gap pairs x 5 clip settings (custom) + the three standard modes; the long call follows a short one on the same object; O(mn) oracle validated against the sub-range oracle on every pair over {a,b}^<=3 x 256 clip settings",
             "history_depth": tier.pick(3, 4), "history_alphabet": "4 modes x 52 input pairs (3 long + all of {a,b}^<=2 squared), 8 schemes x 3 constructors; BFS stops early when no new object state appears",
         })
     }
